@@ -36,32 +36,39 @@ Definition values_of (c : cnt) (key : string) : option (list (Z * dec)) :=
   if key =? "fixtemp" then c_fixtemp c
   else if key =? "cflux" then c_cflux c else None.
 
-Definition sec_block (c : cnt) (s : sec) : result (list block) :=
+(* one row of the table, given fem_data.constraints as two lookups *)
+Definition sec_block_with (tab : string -> option table) (val : string -> option (list (Z * dec)))
+           (s : sec) : result (list block) :=
   let '(key, header, src, _) := s in
   match src with
-  | SrcGenBoth => opt_block (table_of c key)
+  | SrcGenBoth => opt_block (tab key)
       (fun t => l <- gen_constraints t ;; Ok (header, data_rows (map boundary_row l)))
-  | SrcGenFirst => opt_block (table_of c key)
+  | SrcGenFirst => opt_block (tab key)
       (fun t => l <- gen_constraints t ;; Ok (header, data_rows (map dof_row l)))
-  | SrcSpring => opt_block (table_of c key)
+  | SrcSpring => opt_block (tab key)
       (fun t => Ok (header, data_rows (map dof_row (prescriptions t))))
-  | SrcValues => opt_block (values_of c key)
+  | SrcValues => opt_block (val key)
       (fun t => Ok (header, data_rows (map value_row t)))
   end.
 
-Fixpoint sec_blocks (c : cnt) (secs : list sec) : result (list block) :=
+Fixpoint sec_blocks_with tab val (secs : list sec) : result (list block) :=
   match secs with
   | [] => Ok []
-  | s :: rest => b <- sec_block c s ;; bs <- sec_blocks c rest ;; Ok (b ++ bs)%list
+  | s :: rest => b <- sec_block_with tab val s ;; bs <- sec_blocks_with tab val rest ;; Ok (b ++ bs)%list
   end.
 
+Definition sec_block (c : cnt) := sec_block_with (table_of c) (values_of c).
+Definition sec_blocks (c : cnt) := sec_blocks_with (table_of c) (values_of c).
+
+Definition frame_blocks (c : cnt) (bs : list block) : list block :=
+  ([("!VERSION", ["5"]); (("!SOLUTION, TYPE=" ++ c_solution c)%string, [])]
+   ++ (if String.eqb (c_solution c) "HEAT" then [("!HEAT", [])] else [])
+   ++ [("!WRITE,RESULT, FREQUENCY=1", []); ("!WRITE,VISUAL, FREQUENCY=1", [])]
+   ++ output_blocks (c_only_solid c)
+   ++ bs ++ trailer_blocks)%list.
+
 Definition cnt_blocks_of (secs : list sec) (c : cnt) : result (list block) :=
-  bs <- sec_blocks c secs ;;
-  Ok ([("!VERSION", ["5"]); (("!SOLUTION, TYPE=" ++ c_solution c)%string, [])]
-      ++ (if String.eqb (c_solution c) "HEAT" then [("!HEAT", [])] else [])
-      ++ [("!WRITE,RESULT, FREQUENCY=1", []); ("!WRITE,VISUAL, FREQUENCY=1", [])]
-      ++ output_blocks (c_only_solid c)
-      ++ bs ++ trailer_blocks)%list.
+  bs <- sec_blocks c secs ;; Ok (frame_blocks c bs).
 
 Definition write_cnt_of (secs : list sec) (c : cnt) : result (list string) :=
   bs <- cnt_blocks_of secs c ;; Ok (flatten bs).
@@ -101,7 +108,7 @@ Definition cnt_of_secs (secs : list sec) (fc : fcnt) : option cnt :=
 (* ------------------------------------------------------------------ *)
 Lemma cnt_blocks_of_modelled c : cnt_blocks_of modelled_sections c = cnt_blocks c.
 Proof.
-  unfold cnt_blocks_of, cnt_blocks, modelled_sections, sec_blocks, sec_block.
+  unfold cnt_blocks_of, cnt_blocks, frame_blocks, modelled_sections, sec_blocks, sec_blocks_with, sec_block_with.
   change (table_of c "boundary") with (c_boundary c).
   change (table_of c "spring") with (c_spring c).
   change (table_of c "cload") with (c_cload c).
